@@ -258,3 +258,56 @@ def _(root):
     # a correct memoisation of the signature: the memo's dict is never handed out
     sub_all(root, ('_inspect.py',), "from copy import copy\ndef _keygen(func, ignored, *args, **kwds):", MEMO_HELPER % "defaults.copy() if defaults is not None else None")
     sub_all(root, ('_inspect.py',), "explicitly_named,user_kwds = signature(func,markup=False,variadic=False, safe=safe)", "explicitly_named,user_kwds = _signature(func)")
+
+
+@V('wrapper-under-lock-with-logging')
+def _(root):
+    # rr_cache (both modules): an RLock around the whole wrapper body and a debug log line
+    for fn in CACHES:
+        p = os.path.join(root, 'klepto', fn)
+        s = open(p).read()
+        i = s.index('class rr_cache')
+        body = s[i:]
+        body = body.replace("        purge = self.__state__['purge']\n\n        def wrapper(*args, **kwds):\n            from random import choice #XXX: biased?\n",
+                            "        purge = self.__state__['purge']\n        from threading import RLock\n        import logging\n        lock = RLock()\n        log = logging.getLogger('klepto')\n\n        def wrapper(*args, **kwds):\n          with lock:\n            log.debug('call %s', user_function)\n            from random import choice #XXX: biased?\n", 1)
+        if 'with lock' not in body:
+            raise RuntimeError('variant anchor not found')
+        # indent the rest of the wrapper body by two spaces is not needed: python accepts the deeper block as is
+        open(p, 'w').write(s[:i] + body)
+
+
+@V('key-computed-by-module-helper')
+def _(root):
+    p = os.path.join(root, 'klepto', '_cache.py')
+    s = open(p).read()
+    s = s.replace("class Counter(dict):", "def _make_key(user_function, keymap, ignore, rounded_args, args, kwds):\n    _args, _kwds = rounded_args(*args, **kwds)\n    _args, _kwds = _keygen(user_function, ignore, *_args, **_kwds)\n    return keymap(*_args, **_kwds)\n\nclass Counter(dict):", 1)
+    i = s.index('class mru_cache')
+    j = s.index('class rr_cache')
+    body = s[i:j]
+    old = "            _args, _kwds = rounded_args(*args, **kwds)\n            _args, _kwds = _keygen(user_function, ignore, *_args, **_kwds)\n            key = keymap(*_args, **_kwds)\n"
+    if old not in body:
+        raise RuntimeError('variant anchor not found')
+    body = body.replace(old, "            key = _make_key(user_function, keymap, ignore, rounded_args, args, kwds)\n")
+    open(p, 'w').write(s[:i] + body + s[j:])
+
+
+@V('lookup-via-get-with-marker')
+def _(root):
+    # inf_cache (standard): `try: cache[key] / except KeyError` rewritten with cache.get(key, marker)
+    sub_all(root, ('_cache.py',), "            try:\n                # get cache entry\n                result = cache[key]\n                stats[HIT] += 1\n            except KeyError:\n                # if not in cache, look in archive\n                if cache.archived():\n                    cache.load(key)\n                try:\n                    result = cache[key]\n                    stats[LOAD] += 1\n                except KeyError:\n                    # if not found, then compute\n                    result = user_function(*args, **kwds)\n                    cache[key] = result\n                    stats[MISS] += 1\n            return result",
+            "            result = cache.get(key, nothing)\n            if result is not nothing:\n                stats[HIT] += 1\n                return result\n            if cache.archived():\n                cache.load(key)\n            result = cache.get(key, nothing)\n            if result is not nothing:\n                stats[LOAD] += 1\n                return result\n            result = user_function(*args, **kwds)\n            cache[key] = result\n            stats[MISS] += 1\n            return result")
+    sub_all(root, ('_cache.py',), "       #_len = len                      # localize the global len() function\n", "        nothing = object()\n")
+
+
+@V('archives-rename-instead-of-replace')
+def _(root):
+    sub_all(root, ('_archives.py',), "os.replace(_filename, filename)", "os.rename(_filename, filename)")
+
+
+@V('archives-local-renames')
+def _(root):
+    p = os.path.join(root, 'klepto', '_archives.py')
+    s = open(p).read()
+    s = s.replace('_filename', 'tmpname').replace('memo', 'contents')
+    # 'memo' also appears inside the import-based reader's source strings; keep those in sync by construction (same replace)
+    open(p, 'w').write(s)
